@@ -14,5 +14,6 @@ CONSTANTS
   BkRechecksLock = TRUE
   AllowConcurrent = FALSE
   GcStopsOnUnreadableHunk = TRUE
+  GcBandsBeforeBlocks = TRUE
 INVARIANTS Inv_ValidateQuietOnHealthy Inv_ValidateAdequate
 CHECK_DEADLOCK FALSE
